@@ -337,7 +337,7 @@ fn write_file(path: &std::path::Path, bytes: &[u8]) {
 // macro and as an operator; the two registrations are independent of each other)
 const MACRO_NAMES: &[&str] = &["bulk:7", "bulk:250", "m:a", "m:b", "m:c", "geo:in", "neu:out", "f:x", "f:y", "f:way", "f:way_too", "g:x", "g:last", "plainres", "rec:a", "addone", "shadow", "u:op"];
 const FILE_MACROS: &[(&str, &str)] = &[("f", "x"), ("f", "y"), ("f", "way"), ("f", "way_too"), ("g", "x"), ("g", "last")];
-const OP_NAMES: &[&str] = &["addk", "shadow", "addone", "helmert", "noop", "u:op", "m:a", "geo:in", "plainres"];
+const OP_NAMES: &[&str] = &["addk", "shadow", "addone", "helmert", "noop", "u:op", "m:a", "geo:in", "plainres", "stack", "push", "pop", "pipeline"];
 
 fn gen_step(rng: &mut Rng) -> String {
     let base = match rng.weighted(&[14, 12, 10, 8, 22, 10, 4, 3, 3]) {
@@ -366,7 +366,12 @@ fn gen_step(rng: &mut Rng) -> String {
             2 => format!("gridshift grids={}, {}", GRID_NAMES[0], GRID_NAMES[1]),
             _ => format!("gridshift grids=@missing.geoid, {}", rng.pick(GRID_NAMES)),
         },
-        6 => "noop".to_string(),
+        6 => match rng.below(4) {
+            0 => format!("helmert x={} dx={} t_epoch=2000", rng.range(-9, 9), rng.range(1, 5)),
+            1 => format!("helmert x={} dx={} dy={} t_epoch=2000", rng.range(-9, 9), rng.range(1, 5), rng.range(1, 5)),
+            2 => "helmert x=1 dx=1".to_string(),
+            _ => "noop".to_string(),
+        },
         7 => "nosuchop".to_string(),
         _ => "no:such".to_string(),
     };
@@ -378,6 +383,11 @@ fn gen_step(rng: &mut Rng) -> String {
 }
 
 fn gen_def(rng: &mut Rng) -> String {
+    // the pipeline handlers as stand-alone definitions (a user operator registered under
+    // one of these names shadows them like any other built-in)
+    if rng.chance(0.05) {
+        return (*rng.pick(&["stack push=1", "push v_1", "pop v_1", "stack pop=1", "pipeline", "stack", "push", "pop"])).to_string();
+    }
     let n = match rng.weighted(&[55, 30, 15]) {
         0 => 1,
         1 => 2,
@@ -388,6 +398,11 @@ fn gen_def(rng: &mut Rng) -> String {
 }
 
 fn gen_macro_body(rng: &mut Rng, name: &str) -> String {
+    // an empty or blank text is a registration like any other (it takes precedence over
+    // files, and then fails to instantiate)
+    if rng.chance(0.04) {
+        return (*rng.pick(&["", " ", "\n", "  \t "])).to_string();
+    }
     if name == "rec:a" && rng.chance(0.6) {
         return "addone | rec:a".to_string();
     }
@@ -871,6 +886,11 @@ impl Engine for RegSim {
                     let foreign = o.ctx != c;
                     if foreign {
                         rec.probe("foreign_handle");
+                        let mut none: Vec<Coor4D> = Vec::new();
+                        if let Ok(Ok(_)) = catch(|| ctxs[c].get().apply(o.handle, Fwd, &mut none)) {
+                            rec.violate("I-hnd", "a handle from another context is accepted by apply", format!("event {}: operator of ctx{} through ctx{} with an empty coordinate set", k, o.ctx, c));
+                            break;
+                        }
                     }
                     match r {
                         Err(p) => {
@@ -954,7 +974,11 @@ impl Engine for RegSim {
                     rec.probe("forged_handle");
                     let forged = OpHandle::new();
                     let mut data = vec![Coor4D(PROBES[0])];
-                    let r = catch(|| (ctxs[c].get().apply(forged, Fwd, &mut data).is_ok(), ctxs[c].get().steps(forged).is_ok(), ctxs[c].get().params(forged, 0).is_ok()));
+                    let r = catch(|| {
+                        let mut none: Vec<Coor4D> = Vec::new();
+                        let empty_ok = ctxs[c].get().apply(forged, Inv, &mut none).is_ok();
+                        (ctxs[c].get().apply(forged, Fwd, &mut data).is_ok() || empty_ok, ctxs[c].get().steps(forged).is_ok(), ctxs[c].get().params(forged, 0).is_ok())
+                    });
                     match r {
                         Err(p) => {
                             rec.violate("I-safe", &format!("unknown handle makes the context panic: {}", p), format!("event {}", k));
